@@ -72,7 +72,7 @@ inline std::vector<double> candidates(TasmanianSparseGrid &g, const Op &op, Ref 
 // Applies op. Returns false when the documented preconditions do not admit the op in this state (pruned, no call made).
 inline bool apply(TasmanianSparseGrid &g, const Op &op, Ref &r, ApplyInfo *info = nullptr){
     if (g.empty()) return false;
-    if (g.getNumLoaded() + g.getNumNeeded() > 3000) return false; // the lattice is bounded by 3000 points: no transitions out of larger states (O(n^2) operations would look like hangs)
+    if (g.getNumLoaded() + g.getNumNeeded() > 3000 && !(op.k == "load" && g.getNumLoaded() == 0)) return false; // the lattice is bounded by 3000 points: no transitions out of larger states (O(n^2) operations would look like hangs), except the first load of a deliberately large configuration
     int d = g.getNumDimensions(), outs = g.getNumOutputs(); bool constr = g.isUsingConstruction(); bool local = isLocalFam(g);
     const std::string &k = op.k;
     if (k == "load"){
@@ -151,7 +151,7 @@ inline bool apply(TasmanianSparseGrid &g, const Op &op, Ref &r, ApplyInfo *info 
     }
     if (k == "clear"){ if (g.getNumNeeded() == 0 || g.getNumLoaded() == 0 || constr) return false; g.clearRefinement(); return true; }
     if (k == "setcoef"){
-        if (outs == 0 || constr || g.getNumLoaded() == 0 || g.getNumNeeded() > 0) return false;
+        if (outs == 0 || constr || g.getNumLoaded() == 0) return false; // a pending refinement is legal: the call discards it
         size_t n = (size_t) g.getNumPoints() * outs * (g.isFourier() ? 2 : 1); std::vector<double> c(n); for(size_t i=0;i<n;i++) c[i] = std::cos(0.7 * i + 0.1 + op.a) / (1.0 + 0.05 * i);
         { auto xl = g.getLoadedPoints(); for(size_t i=0;i+d<=xl.size();i+=d) r.stale.insert(Pt(xl.begin()+i, xl.begin()+i+d)); }
         g.setHierarchicalCoefficients(c); r.vals_valid = false; return true;
